@@ -164,6 +164,10 @@ func c05ovf(c *core.Ctx, r *core.Reporter) {
 					r.Hold(rule, key, c.Pos(in.Pos()), "the result flows into a comparison (overflow test)")
 					continue
 				}
+				if opname == "neg" && notMinInt64At(fn, in.Block(), ops[0]) {
+					r.Hold(rule, key, c.Pos(in.Pos()), "the operand was compared with math.MinInt64, the one fixnum whose negation wraps, and this is the unequal outcome")
+					continue
+				}
 				if ex, ok := ovfExceptions[key]; ok {
 					r.Hold(rule, key, c.Pos(in.Pos()), "accepted by reading: "+ex)
 					continue
@@ -444,6 +448,92 @@ func checkParamAtCallers(c *core.Ctx, an *own.Analyzer, lf *lenflow.Analyzer, id
 	return true, ""
 }
 
+// checkContentsAtCallers: parameter pi of fn is a container (a struct behind a pointer, a slice) out of which fn
+// loads the object it mutates. At every static caller the container passed is either allocated there — then every
+// pointer-like value the caller stores into it must be its own allocation, or come from a parameter whose callers
+// satisfy the same — or is the caller's own parameter (recursively). A caller that is an entry point and stores one
+// of its arguments (or something loaded from them) into the container hands a Lisp object to the mutation.
+func checkContentsAtCallers(c *core.Ctx, an *own.Analyzer, lf *lenflow.Analyzer, idx *callSiteIndex, fn *ssa.Function, pi int, depth int, seen map[string]bool) (bool, string) {
+	key := fmt.Sprintf("%p/%d", fn, pi)
+	if seen[key] {
+		return true, ""
+	}
+	seen[key] = true
+	if depth > 5 {
+		return false, "call chain too deep"
+	}
+	for _, call := range idx.callers[fn] {
+		if pi >= len(call.Call.Args) {
+			return false, "argument not found at " + c.Pos(call.Pos())
+		}
+		caller := call.Parent()
+		arg := call.Call.Args[pi]
+		for o := range an.Origins(arg) {
+			switch o.Kind {
+			case own.Shared:
+				return false, fmt.Sprintf("%s passes a container from shared storage at %s", core.SSAName(caller), c.Pos(call.Pos()))
+			case own.Param:
+				if lf.Dynamic(caller) {
+					return false, fmt.Sprintf("%s, an entry point, passes (part of) its own argument #%d at %s", core.SSAName(caller), o.Param, c.Pos(call.Pos()))
+				}
+				if ok, why := checkContentsAtCallers(c, an, lf, idx, caller, o.Param, depth+1, seen); !ok {
+					return false, fmt.Sprintf("%s <- %s", c.Pos(call.Pos()), why)
+				}
+			}
+		}
+		// what the caller stores into a container it allocated
+		root := arg
+		for {
+			switch x := root.(type) {
+			case *ssa.Slice:
+				root = x.X
+				continue
+			case *ssa.ChangeType:
+				root = x.X
+				continue
+			}
+			break
+		}
+		if root.Referrers() == nil {
+			continue
+		}
+		for _, rf := range *root.Referrers() {
+			var addr ssa.Value
+			switch x := rf.(type) {
+			case *ssa.FieldAddr:
+				addr = x
+			case *ssa.IndexAddr:
+				addr = x
+			default:
+				continue
+			}
+			if addr.Referrers() == nil {
+				continue
+			}
+			for _, r2 := range *addr.Referrers() {
+				st, ok := r2.(*ssa.Store)
+				if !ok || st.Addr != addr {
+					continue
+				}
+				for o := range an.Origins(st.Val) {
+					switch o.Kind {
+					case own.Shared:
+						return false, fmt.Sprintf("%s stores an object from shared storage into the container at %s", core.SSAName(caller), c.Pos(st.Pos()))
+					case own.Param:
+						if lf.Dynamic(caller) {
+							return false, fmt.Sprintf("%s, an entry point, stores (part of) its argument #%d into the container at %s", core.SSAName(caller), o.Param, c.Pos(st.Pos()))
+						}
+						if ok, why := checkParamAtCallers(c, an, lf, idx, caller, o.Param, depth+1, map[string]bool{}); !ok {
+							return false, fmt.Sprintf("%s <- %s", c.Pos(st.Pos()), why)
+						}
+					}
+				}
+			}
+		}
+	}
+	return true, ""
+}
+
 func c05operand(c *core.Ctx, r *core.Reporter) {
 	const rule = "C05.operand"
 	r.Rule(rule, "the destination of every mutating math/big call (a method that sets and returns its receiver, Set*, and the out parameter of DivMod/QuoRem) is an object allocated in the current activation, or a parameter of a helper whose every (transitive) static caller passes an object it allocated; never an object reachable from an argument of an entry point or from shared storage", 200)
@@ -484,6 +574,20 @@ func c05operand(c *core.Ctx, r *core.Reporter) {
 				}
 				okAll := true
 				why := ""
+				// an object loaded out of a parameter's storage (a field of the receiver, an element of a slice):
+				// that the callers allocated the container says nothing about what they put into it
+				for o := range os {
+					if o.Kind == own.Param && o.Elem && okAll && !lf.Dynamic(fn) {
+						if ok, w := checkContentsAtCallers(c, an, lf, idx, fn, o.Param, 0, map[string]bool{}); !ok {
+							okAll = false
+							why = fmt.Sprintf("destination is loaded out of parameter #%d: %s", o.Param, w)
+						}
+					}
+				}
+				if !okAll {
+					r.Violate(rule, key, c.Pos(call.Pos()), why)
+					continue
+				}
 				for _, p := range os.Params() {
 					ok, w := checkParamAtCallers(c, an, lf, idx, fn, p, 0, map[string]bool{})
 					if !ok {
@@ -757,4 +861,26 @@ func comparesWithMinInt64(fn *ssa.Function) bool {
 		}
 	}
 	return false
+}
+
+// notMinInt64At: every path to b crosses the unequal outcome of a comparison of v with math.MinInt64.
+func notMinInt64At(fn *ssa.Function, b *ssa.BasicBlock, v ssa.Value) bool {
+	return core.Separates(fn, b, func(*ssa.Function) bool { return false }, func(ifi *ssa.If, branch bool) bool {
+		bo, ok := ifi.Cond.(*ssa.BinOp)
+		if !ok || (bo.Op != token.EQL && bo.Op != token.NEQ) {
+			return false
+		}
+		isMin := func(x ssa.Value) bool {
+			k, ok := x.(*ssa.Const)
+			if !ok || k.Value == nil || k.Value.Kind() != constant.Int {
+				return false
+			}
+			n, exact := constant.Int64Val(k.Value)
+			return exact && n == math.MinInt64
+		}
+		if !((bo.X == v && isMin(bo.Y)) || (bo.Y == v && isMin(bo.X))) {
+			return false
+		}
+		return (bo.Op == token.EQL && !branch) || (bo.Op == token.NEQ && branch)
+	})
 }
